@@ -357,7 +357,51 @@ impl Model {
                 }
                 Expect::Ddl
             }
-            Stmt::Alter { .. } => Expect::Any,
+            Stmt::Alter { table, action } => {
+                let Some(ti) = self.find_table(tx, table) else { return Expect::Fail("unknown table") };
+                match action {
+                    AlterAction::AddColumn(c) => {
+                        if self.tables[ti].col(&c.name).is_some() {
+                            return Expect::Fail("column exists");
+                        }
+                        if apply {
+                            let fill = c.default.clone().unwrap_or(Val::Null);
+                            self.tables[ti].cols.push(c.clone());
+                            for r in self.tables[ti].rows.iter_mut() {
+                                for v in r.versions.iter_mut() {
+                                    v.vals.push(fill.clone());
+                                }
+                            }
+                            self.txs[tx].writes += 1;
+                        }
+                        Expect::Ddl
+                    }
+                    AlterAction::DropColumn(c) => {
+                        let Some(ci) = self.tables[ti].col(c) else { return Expect::Fail("unknown column") };
+                        if self.tables[ti].uniques.iter().any(|u| u.cols.contains(&ci)) {
+                            return Expect::Any;
+                        }
+                        if apply {
+                            self.tables[ti].cols.remove(ci);
+                            for u in self.tables[ti].uniques.iter_mut() {
+                                for x in u.cols.iter_mut() {
+                                    if *x > ci {
+                                        *x -= 1;
+                                    }
+                                }
+                            }
+                            for r in self.tables[ti].rows.iter_mut() {
+                                for v in r.versions.iter_mut() {
+                                    v.vals.remove(ci);
+                                }
+                            }
+                            self.txs[tx].writes += 1;
+                        }
+                        Expect::Ddl
+                    }
+                    _ => Expect::Any,
+                }
+            }
             Stmt::Insert { table, rows } => {
                 let Some(ti) = self.find_table(tx, table) else { return Expect::Fail("unknown table") };
                 let ncols = self.tables[ti].cols.len();
